@@ -128,6 +128,18 @@ UnqStep(st, c) ==
 PctDecode(bs) == LET r == FoldLeft(UnqStep, [out |-> <<>>, pend |-> <<>>], bs) IN r.out \o r.pend
 PlusToSpace(s) == MapSeq(LAMBDA c : IF c = 43 THEN 32 ELSE c, s)
 
+(* query strings: urllib.parse.parse_qsl on bytes - pairs <<name, value>> of decoded bytes;
+   keep = keep_blank_values *)
+QsDecode(s) == PctDecode(PlusToSpace(s))
+QsPairs(b, keep) ==
+    LET stp(acc, seg) ==
+          IF seg = <<>> THEN acc
+          ELSE LET p == Partition(seg, 61) IN
+               IF ~p[3] THEN (IF keep THEN Append(acc, <<QsDecode(seg), <<>>>>) ELSE acc)
+               ELSE IF Len(p[2]) > 0 \/ keep THEN Append(acc, <<QsDecode(p[1]), QsDecode(p[2])>>)
+               ELSE acc
+    IN FoldLeft(stp, <<>>, Split(b, 38))
+
 (* lexicographic order on integer sequences *)
 SeqLess(a, b) == \E k \in 1..(Min2(Len(a), Len(b)) + 1) :
                     /\ \A j \in 1..(k - 1) : a[j] = b[j]
